@@ -1,6 +1,7 @@
 (** C12 — Parsing is independent of line endings, blank padding and read chunking.  Pinned statements only;
     proofs in Proofs/ReaderFacts.v and Proofs/SectionsFacts.v. *)
-Require Import CF.Proofs.Tac CF.Model.Text CF.Model.Records CF.Model.Reader CF.Model.Sections CF.Proofs.SectionsFacts CF.Proofs.ReaderFacts.
+Require Import CF.Proofs.Tac CF.Model.Text CF.Model.Records CF.Model.Reader CF.Model.Sections CF.Proofs.SectionsFacts CF.Proofs.ReaderFacts
+  CF.Proofs.FileFacts CF.Proofs.EolFacts.
 
 (** Chunking: for every schedule of chunks (and transient interrupts) without a hard failure, the stream
     of line reads - on which every parsed line, section, error and machine depends - is the one of the flat
@@ -26,7 +27,16 @@ Theorem C12_padding : forall r rest idx, classify r = RBlank ->
 Proof. exact spec_sections_pad_between. Qed.
 Print Assumptions C12_padding.
 
-(** LF vs CRLF, final newline or none: same line reads (texts), only the byte counts differ. *)
+(** LF versus CRLF: the same text lines (no LF inside, not ending in CR, valid UTF-8) terminated either way
+    are read back as the same texts, every read succeeding - so every parsed line, section, error and
+    machine is the same; only the byte counts differ. *)
+Theorem C12_eol : forall eol ls, eol = [LF] \/ eol = [CR; LF] -> Forall (line_ok eol) ls ->
+  texts (raw_reads (src_of_bytes (join_lines eol ls))) = ls /\ all_ok (raw_reads (src_of_bytes (join_lines eol ls))).
+Proof. exact raw_reads_join. Qed.
+Print Assumptions C12_eol.
+
+(** Final newline or none, on an example (the general statement is C12_raw_count: the last line's
+    terminator may be absent). *)
 Example C12_eol_example :
   map (fun r => match r with ROk _ t => t | _ => [] end) (raw_reads (src_of_bytes [52; 13; 10; 13; 10; 53; 54; 13; 10]))
   = map (fun r => match r with ROk _ t => t | _ => [] end) (raw_reads (src_of_bytes [52; 10; 10; 53; 54])).
